@@ -155,6 +155,23 @@ theorem flag_iff_removed_counterexample :
     (filterCore a r).flag = some false ∧ entries (filterCore a r) ≠ entries r := by
   decide
 
+/-- Why that is not a disclosure problem: for a caller without `acl:write`, a prepared-query list
+    containing un-named queries filters to exactly the same response — entries, redactions and flag —
+    as the list without them. The response is indistinguishable from "no such query exists" (un-named
+    queries are capabilities addressed by their ID: `PreparedQuery.Get` serves them to whoever knows the
+    ID, and only a management token may enumerate them; setting the flag would reveal their existence). -/
+theorem unnamed_queries_invisible (a : Authz) (hw : a.aclWrite = false) (xs : List PQ) (f : Bool) :
+    filterCore a (.preparedQueries xs f) = filterCore a (.preparedQueries (xs.filter (·.hasName)) f) := by
+  simp only [filterCore, hw, Bool.false_eq_true, if_false, pqLoop_eq, List.nil_append, List.filter_filter,
+    List.any_filter]
+  congr 2
+  · congr 1
+    funext q
+    cases q.hasName <;> simp
+  · congr 1
+    funext q
+    cases q.hasName <;> simp
+
 /-- `IndexedServiceTopology.FilteredByACLs` follows the same rule as the flag. -/
 theorem topology_filtered_marker (a : Authz) (u d : List CSN) (fb f : Bool) :
     ∃ u' d', filterCore a (.topology (some (u, d)) fb f) =
@@ -374,10 +391,123 @@ theorem mask_hides_flag_from_anonymous (cfg : Cfg) (b : Backend) (c : Cache) (se
         simp [this]
       · rfl
 
+/-! ### Every entry point, all rounds of the retry loops -/
+
+/-- MAIN (all entry points): `resolveTokenToIdentityAndPolicies` and `resolveTokenToIdentityAndRoles`
+    — up to five rounds, the identity re-resolved in each (from store, cache or a fresh fetch that may
+    return a different version of the token), whatever the role / policy link fetches answer — only
+    ever succeed with an identity that is not expired at resolution time. `ep` ranges over
+    `ResolveToken` / `ResolveTokenAndDefaultMeta`, the core of `ACL.PolicyResolve` and the core of
+    `ACL.RoleResolve`; `store = none` is the client-agent / secondary configuration. -/
+theorem loop_granted_not_expired (cfg : Cfg) (ep : EntryPoint) (store : Option (List Token)) (fuel : Nat)
+    (c c' : Cache) (script : List Round) (secret : String) (now : Nat) (t : Token)
+    (h : resolveLoop cfg ep store fuel c script secret now = (c', .ok t)) : t.isExpired now = false := by
+  induction fuel generalizing c script with
+  | zero => simp [resolveLoop] at h
+  | succ fuel ih =>
+    cases script with
+    | nil => simp [resolveLoop] at h
+    | cons r rest =>
+      simp only [resolveLoop] at h
+      split at h
+      · rename_i c1 t1 _
+        by_cases he : t1.isExpired now = true
+        · simp [he] at h
+        · have he' : t1.isExpired now = false := by simpa using he
+          simp only [he', Bool.false_eq_true, if_false] at h
+          split at h
+          · simp only [Prod.mk.injEq, LoopRes.ok.injEq] at h; rw [← h.2]; exact he'
+          · split at h
+            · simp only [Prod.mk.injEq, LoopRes.ok.injEq] at h; rw [← h.2]; exact he'
+            · simp at h
+            · exact ih _ _ h
+            · simp at h
+      · simp at h
+      · simp at h
+
+/-- `ResolveToken` / `ResolveTokenAndDefaultMeta` over the whole loop. -/
+theorem granted_not_expired_all_rounds (cfg : Cfg) (store : Option (List Token)) (c c' : Cache)
+    (script : List Round) (secret : String) (now : Nat) (t : Token)
+    (h : resolveTokenAll cfg store c script secret now = (c', .granted t)) : t.isExpired now = false := by
+  unfold resolveTokenAll at h
+  split at h <;> simp at h
+  rename_i c1 t1 heq
+  rw [← h.2]
+  exact loop_granted_not_expired cfg .token store maxRetries c c1 script secret now t1 heq
+
+/-- A token that is expired wherever it can come from in the first round (store; fresh cache entry;
+    the primary's answer when nothing usable is cached) is refused in that round, for every entry point. -/
+theorem loop_expired_in_store_not_found (cfg : Cfg) (ep : EntryPoint) (store : List Token) (fuel : Nat) (c : Cache)
+    (r : Round) (rest : List Round) (t : Token) (now : Nat)
+    (hfind : store.find? (fun u => u.secret = t.secret) = some t) (hexp : t.isExpired now = true) :
+    (resolveLoop cfg ep (some store) (fuel + 1) c (r :: rest) t.secret now).2 = .notFound := by
+  simp [resolveLoop, resolveIdentity, serverIdentity, hfind, hexp]
+
+theorem loop_expired_in_cache_not_found (cfg : Cfg) (ep : EntryPoint) (fuel : Nat) (c : Cache) (r : Round)
+    (rest : List Round) (secret : String) (ce : CEntry) (now : Nat)
+    (hget : c.get secret = some ce) (hfresh : now - ce.cacheTime ≤ cfg.ttl) (hexp : ce.ident.isExpired now = true) :
+    (resolveLoop cfg ep none (fuel + 1) c (r :: rest) secret now).2 = .notFound := by
+  simp [resolveLoop, resolveIdentity, hget, hfresh, hexp]
+
+theorem loop_expired_fetched_not_found (cfg : Cfg) (ep : EntryPoint) (fuel : Nat) (c : Cache) (la : LinkAns)
+    (rest : List Round) (secret : String) (t : Token) (now : Nat)
+    (hget : c.get secret = none) (hexp : t.isExpired now = true) :
+    (resolveLoop cfg ep none (fuel + 1) c (⟨.found t, la⟩ :: rest) secret now).2 = .notFound := by
+  simp [resolveLoop, resolveIdentity, hget, fetchAndCache, hexp]
+
+/-- When the primary answers a link fetch with "ACL not found" (what it answers for an expired or
+    deleted token), the identity leaves the cache and the resolution fails with "not found". -/
+theorem link_not_found_drops_identity (cfg : Cfg) (ep : EntryPoint) (fuel : Nat) (c c1 : Cache) (rpc : Rpc)
+    (rest : List Round) (secret : String) (t : Token) (now : Nat)
+    (hid : resolveIdentity cfg (.remote rpc) c secret now = (c1, .ident t)) (hexp : t.isExpired now = false)
+    (hl : needsLink ep t = true) :
+    resolveLoop cfg ep none (fuel + 1) c (⟨rpc, .notFound⟩ :: rest) secret now = (c1.remove t.secret, .notFound) := by
+  simp [resolveLoop, hid, hexp, hl]
+
+/-! ### Token endpoints and the reaper -/
+
+/-- `ACL.TokenRead` never returns an expired token, stored or not. -/
+theorem tokenRead_not_expired (store : List Token) (secret : String) (now : Nat) (t : Token)
+    (h : tokenRead store secret now = some t) : t.isExpired now = false := by
+  unfold tokenRead at h
+  split at h
+  · split at h
+    · simp at h
+    · rename_i hne; simp only [Option.some.injEq] at h; rw [← h]; simpa using hne
+  · simp at h
+
+/-- `ACL.TokenList` returns exactly the stored tokens that are not expired. -/
+theorem tokenList_exact (store : List Token) (now : Nat) (t : Token) :
+    t ∈ tokenList store now ↔ t ∈ store ∧ t.isExpired now = false := by
+  simp [tokenList, List.mem_filter]
+
+/-- An accepted reaper run deleted only tokens that are expired … -/
+theorem reap_only_expired (store : List Token) (now : Nat) (reaped : List String) (h : reapOk store now reaped = true)
+    (a : String) (ha : a ∈ reaped) : ∃ t ∈ store, t.accessor = a ∧ t.isExpired now = true := by
+  simp only [reapOk, List.all_eq_true, List.any_eq_true, listExpired, List.mem_filter, decide_eq_true_eq] at h
+  obtain ⟨t, ⟨ht, he⟩, hacc⟩ := h a ha
+  exact ⟨t, ht, hacc, he⟩
+
+/-- … so every token that is still valid survives it, provided accessors are unique. -/
+theorem reap_keeps_valid (store : List Token) (now : Nat) (reaped : List String) (h : reapOk store now reaped = true)
+    (huniq : ∀ t ∈ store, ∀ u ∈ store, t.accessor = u.accessor → t = u)
+    (t : Token) (ht : t ∈ store) (hv : t.isExpired now = false) : t ∈ reapApply store reaped := by
+  simp only [reapApply, List.mem_filter, ht, true_and, Bool.not_eq_true', List.contains_eq_mem, decide_eq_false_iff_not]
+  intro hmem
+  obtain ⟨u, hu, hacc, hexp⟩ := reap_only_expired store now reaped h t.accessor hmem
+  have := huniq u hu t ht hacc
+  subst this
+  simp [hv] at hexp
+
+/-- What the reaper looks for (`ACLTokenListExpired`) is exactly what resolution refuses. -/
+theorem listExpired_iff (store : List Token) (asOf : Nat) (t : Token) :
+    t ∈ listExpired store asOf ↔ t ∈ store ∧ t.isExpired asOf = true := by
+  simp [listExpired, List.mem_filter]
+
 /-! ### Non-vacuity: the hypotheses above are satisfiable by concrete, non-trivial inputs -/
 
-def tokExpired : Token := ⟨"s1", "a1", some 1008, ["web"]⟩
-def tokValid : Token := ⟨"s1", "a1", some 1016, ["web"]⟩
+def tokExpired : Token := ⟨"s1", "a1", some 1008, ["web"], 0⟩
+def tokValid : Token := ⟨"s1", "a1", some 1016, ["web"], 0⟩
 
 /-- a cached, still fresh, expired token is refused although the primary would still return it -/
 example : (resolveToken ⟨100, .extendCache⟩ (.remote (.found tokExpired)) [("s1", ⟨tokExpired, 1004⟩)] "s1" 1012).2
@@ -388,6 +518,22 @@ example : (resolveToken ⟨100, .extendCache⟩ (.remote .error) [("s1", ⟨tokE
 /-- unreaped in the store -/
 example : (resolveToken ⟨4, .deny⟩ (.server [tokExpired]) [] "s1" 1012).2 = .notFound := by decide
 example : (resolveToken ⟨4, .deny⟩ (.server [tokValid]) [] "s1" 1012).2 = .granted tokValid := by decide
+/-- two rounds: the first link fetch is denied, the identity is dropped and re-fetched — now with a
+    version of the token that has expired: refused -/
+example : (resolveLoop ⟨100, .deny⟩ .token none 5 [("s1", ⟨{ tokValid with link := 1 }, 1004⟩)]
+    [⟨.error, .permDenied⟩, ⟨.found { tokExpired with link := 1 }, .ok⟩, ⟨.error, .ok⟩, ⟨.error, .ok⟩, ⟨.error, .ok⟩] "s1" 1012).2
+    = .notFound := by decide
+/-- the same with a still valid second version: granted in round 2 -/
+example : (resolveLoop ⟨100, .deny⟩ .token none 5 [("s1", ⟨{ tokValid with link := 1 }, 1004⟩)]
+    [⟨.error, .permDenied⟩, ⟨.found { tokValid with link := 2 }, .ok⟩, ⟨.error, .ok⟩, ⟨.error, .ok⟩, ⟨.error, .ok⟩] "s1" 1012).2
+    = .ok { tokValid with link := 2 } := by decide
+/-- five denials -/
+example : (resolveLoop ⟨100, .deny⟩ .policies none 5 []
+    (List.replicate 5 ⟨.found { tokValid with link := 1 }, .permDenied⟩) "s1" 1012).2 = .denied := by decide
+example : tokenRead [tokExpired] "s1" 1012 = none ∧ tokenRead [tokValid] "s1" 1012 = some tokValid ∧
+    tokenList [tokExpired, { tokValid with secret := "s2", accessor := "a2" }] 1012 = [{ tokValid with secret := "s2", accessor := "a2" }] ∧
+    reapOk [tokExpired, { tokValid with secret := "s2", accessor := "a2" }] 1012 ["a1"] = true ∧
+    reapOk [tokExpired, { tokValid with secret := "s2", accessor := "a2" }] 1012 ["a2"] = false := by decide
 /-- primary unreachable, nothing cached, down policy allow -/
 example : (resolveToken ⟨4, .allow⟩ (.remote .error) [] "s1" 1012).2 = .down true := by decide
 
